@@ -414,6 +414,10 @@ func TestVerifMirror(t *testing.T) {
 	if in == "" || out == "" {
 		t.Skip("VERIF_IN/VERIF_OUT not set")
 	}
+	// the whole test runs in a private network namespace when one can be had (verif_mirrorseq_test.go)
+	if verifMirrorReexec(t, "TestVerifMirror") {
+		return
+	}
 	fi, err := os.Open(in)
 	if err != nil {
 		t.Fatal(err)
@@ -440,6 +444,16 @@ func TestVerifMirror(t *testing.T) {
 		}
 		if line == "new" {
 			fmt.Fprintln(fo, "new\t")
+			continue
+		}
+		if strings.HasPrefix(line, "mirrorseq ") {
+			sc, err := verifParseMirrorSeq(line)
+			if err != nil {
+				fmt.Fprintf(fo, "bad-op\tfail:%v\n", err)
+				continue
+			}
+			o, v := verifRunMirrorSeq(cp, sc)
+			fmt.Fprintf(fo, "%s\t%s\n", o, v)
 			continue
 		}
 		c, err := verifParseMirror(line)
